@@ -32,19 +32,64 @@ Definition target (o : op) : option N :=
 
 Lemma spec_frame a o u : target o <> Some u -> get (fst (spec_step a o)) u = get a u.
 Proof.
-  intro H. destruct o; cbn [spec_step fst target] in *;
-    try reflexivity;
-    repeat match goal with |- context [if ?b then _ else _] => destruct b end;
-    try reflexivity; apply gso; congruence.
+  intro Ht.
+  assert (Hs : forall v l, Some v <> Some u -> get (set a v l) u = get a u)
+    by (intros v l Hv; apply gso; congruence).
+  destruct o; cbn [spec_step fst target] in *; try reflexivity; try (apply Hs; exact Ht).
+  - destruct (N.eqb v w); [reflexivity|apply Hs; exact Ht].
+  - destruct (N.eqb c 0); [reflexivity|apply Hs; exact Ht].
+  - destruct (Z.leb c 0); [reflexivity|apply Hs; exact Ht].
 Qed.
 
-(* in a history of the alphabet, an operation leaves what is observed of every variable
-   other than its target as it was *)
-Theorem run_no_interference nv ops o u :
-  safe nv (ops ++ [o]) = true -> u < nv -> target o <> Some (N.of_nat u) ->
-  exists r1 l1 r2 l2,
-    (ops = [] \/ last (run nv ops) (Crash Dangling) = Ok (r1, l1)) /\
-    last (run nv (ops ++ [o])) (Crash Dangling) = Ok (r2, l2) /\
-    nth_error l2 u = (if isnil_ops ops then Some ([], 0) else nth_error l1 u)
-with isnil_ops_dummy : True.
-Proof. Abort.
+(* ---- refutations: the full statement  forall nv ops, run nv ops = map Ok (spec_run nv ops)
+   is false of the faithful model.  One history per defect; each is re-run against the real
+   code by props/C18str.py (WITNESSES), where the implementation behaves as the model. ---- *)
+
+Definition hello : list N := [104; 101; 108; 108; 111]%N.
+Definition abc : list N := [97; 98; 99]%N.
+Definition hello_world : list N := [104; 101; 108; 108; 111; 95; 119; 111; 114; 108; 100]%N.
+
+Definition differs (nv : nat) (ops : list op) : Prop := run nv ops <> map Ok (spec_run nv ops).
+
+Ltac refute := unfold differs; let H := fresh "H" in (intro H; vm_compute in H; discriminate H).
+
+(* resize(n) beyond the capacity: the reallocated strdata has len = 0, the zero fill starts at 0 *)
+Lemma resize_grow_differs : differs 1 [OSetLit 0 hello; OResize 0 8].
+Proof. refute. Qed.
+(* resize(n) below the length stores no terminator *)
+Lemma resize_shrink_differs : differs 1 [OSetLit 0 hello; OResize 0 3].
+Proof. refute. Qed.
+(* resize(0) of a null string dereferences m_data *)
+Lemma resize_null_differs : differs 1 [OResize 0 0].
+Proof. refute. Qed.
+(* reserve(n) beyond the capacity: length() becomes 0 *)
+Lemma reserve_differs : differs 1 [OSetLit 0 hello; OReserve 0 20].
+Proof. refute. Qed.
+(* ... and the next append overflows the storage it sizes from that length *)
+Lemma reserve_append_differs : differs 1 [OSetLit 0 hello; OReserve 0 20; OAppendLit 0 [88%N]].
+Proof. refute. Qed.
+(* assign("", 0) on a null string dereferences m_data *)
+Lemma assign_null_differs : differs 1 [OAssignN 0 []].
+Proof. refute. Qed.
+(* assign after a reallocation (alloced = 0): the old text is copied into n + 1 bytes *)
+Lemma assign_after_growth_differs :
+  differs 1 [OSetLit 0 [104; 105]%N; OAppendLit 0 hello_world; OAssignN 0 [120%N]].
+Proof. refute. Qed.
+(* append("") to a null string dereferences m_data *)
+Lemma append_empty_differs : differs 1 [OAppendLit 0 []].
+Proof. refute. Qed.
+Lemma append_str_empty_differs : differs 2 [OAppendStr 0 1].
+Proof. refute. Qed.
+(* a.append(a): the source is the destination buffer *)
+Lemma self_append_differs : differs 1 [OSetLit 0 [97; 98]%N; OAppendStr 0 0].
+Proof. refute. Qed.
+(* EnsureDataWritable on shared storage of length 0: EnsureAlloced(1) allocates nothing *)
+Lemma index_shared_empty_differs :
+  differs 2 [OSetLit 0 abc; OMinus 0 3; OCopy 1 0; OSetChar 0 0 65].
+Proof. refute. Qed.
+Lemma tolower_shared_empty_differs :
+  differs 2 [OSetLit 0 abc; OCap 0 0; OCopy 1 0; OLower 0].
+Proof. refute. Qed.
+
+Lemma full_alphabet_refuted : exists nv ops, run nv ops <> map Ok (spec_run nv ops).
+Proof. exists 1, [OSetLit 0%N hello; OResize 0%N 8]. exact resize_grow_differs. Qed.
